@@ -289,7 +289,7 @@ fn pipeline_mem(source: Vec<u8>, packages: Vec<(String, Option<Version>, Arc<Vec
 }
 
 /// The pipeline on the simulated disk, exactly as `wac compose` runs it.
-fn pipeline_disk(root: PathBuf, deps_dir: String, overrides: Vec<(String, String)>, tag: String) -> Findings {
+fn pipeline_disk(root: PathBuf, src: String, deps_dir: String, overrides: Vec<(String, String)>, tag: String) -> Findings {
     let mut f = Findings::default();
     // decode every stored package file directly as well
     let mut stored: Vec<(String, Option<Version>, Arc<Vec<u8>>)> = Vec::new();
@@ -315,7 +315,7 @@ fn pipeline_disk(root: PathBuf, deps_dir: String, overrides: Vec<(String, String
         }
     }
     decode_all(&mut f, &stored, &tag);
-    let source = match std::fs::read(root.join("src.wac")) {
+    let source = match std::fs::read(root.join(&src)) {
         Ok(b) => b,
         Err(_) => {
             f.triples.push("read|io-error".into());
@@ -372,6 +372,9 @@ pub const SHAPES: &[&str] = &[
     "component-type-chain",
     "component-nested-instances",
     "component-many-imports",
+    "component-many-imports-explicit-args",
+    "dag-records",
+    "dag-variants-in-func",
 ];
 
 fn shape(t: &mut Tape) -> (String, String, Pkgs) {
@@ -499,6 +502,41 @@ fn shape(t: &mut Tape) -> (String, String, Pkgs) {
                 format!("{head}let x = new shape:comp {{ ... }};\nexport x...;\n"),
                 vec![("shape:comp".into(), None, Arc::new(bytes))],
             )
+        }
+        "component-many-imports-explicit-args" => {
+            // explicit arguments at indices around the 64 / 128 boundaries, the rest implicit
+            let m = n.min(2_000).max(2);
+            let bytes = component_many_imports(m);
+            let mut s = String::from(head);
+            s.push_str("import f: func();\nlet x = new shape:comp { ");
+            for i in [0usize, 1, 31, 32, 63, 64, 65, 127, 128, 129, 255, 256] {
+                if i < m {
+                    s.push_str(&format!("f{i}: f, "));
+                }
+            }
+            s.push_str("... };\nexport x...;\n");
+            (s, vec![("shape:comp".into(), None, Arc::new(bytes))])
+        }
+        "dag-records" => {
+            // records that mention the previous record twice: a DAG with 2^n paths
+            let m = n.min(200).max(1);
+            let mut s = String::from(head);
+            s.push_str("record t0 { a: u8 }\n");
+            for i in 1..=m {
+                s.push_str(&format!("record t{i} {{ a: t{}, b: t{} }}\n", i - 1, i - 1));
+            }
+            s.push_str(&format!("type f = func() -> t{m};\nimport g: func(x: t{m});\n"));
+            (s, Vec::new())
+        }
+        "dag-variants-in-func" => {
+            let m = n.min(200).max(1);
+            let mut s = String::from(head);
+            s.push_str("variant v0 { a(u8), b }\n");
+            for i in 1..=m {
+                s.push_str(&format!("variant v{i} {{ a(v{}), b(tuple<v{}, v{}>), c }}\n", i - 1, i - 1, i - 1));
+            }
+            s.push_str(&format!("type f2 = func(x: v{m}) -> option<v{m}>;\nimport g2: func(x: list<v{m}>) -> v{m};\n"));
+            (s, Vec::new())
         }
         _ => {
             let bytes = component_many_imports(n.min(20_000));
@@ -883,11 +921,20 @@ fn run_inner(run: &mut Run) {
     // compose scenario on the simulated disk with a sequence of 1-4 faults
     let thorough = run.tier == Tier::Thorough;
     let mut sc = crate::props::c19::gen_compose(t, if thorough { 16 } else { 10 });
+    let (src, deps_dir, overrides) = match &sc.cmd {
+        crate::props::c19::Cmd::Compose(c) => (
+            c.src.clone(),
+            c.deps_dir.clone().unwrap_or_else(|| "deps".into()),
+            c.deps.clone(),
+        ),
+        _ => ("src.wac".into(), "deps".into(), Vec::new()),
+    };
     let nfaults = t.range(1, 4);
-    let mut fired: Vec<(&'static str, String)> = sc.faults.clone();
+    // (faults on the child's stdout belong to C19; there is no child here)
+    let mut fired: Vec<(&'static str, String)> = sc.faults.iter().filter(|(k, _)| *k != "stdout_full").cloned().collect();
     for _ in 0..nfaults {
         // faults land on the source or on any stored dependency; biased to the source
-        let prefer = if t.chance(1, 2) { Some("src.wac") } else { None };
+        let prefer = if t.chance(1, 2) { Some(src.as_str()) } else { None };
         let mut only = Tree::default();
         for (p, b) in &sc.tree.files {
             if p != "composed.wasm" && p != "composed.wat" {
@@ -905,18 +952,11 @@ fn run_inner(run: &mut Run) {
             fired.push(f);
         }
     }
-    let (deps_dir, overrides) = match &sc.cmd {
-        crate::props::c19::Cmd::Compose(c) => (
-            c.deps_dir.clone().unwrap_or_else(|| "deps".into()),
-            c.deps.clone(),
-        ),
-        _ => ("deps".into(), Vec::new()),
-    };
     t.event(format!("disk scenario [{}] deps={deps_dir} overrides={overrides:?}", sc.label));
     for (k, p) in &fired {
         t.event(format!("fault {k} on {p}"));
     }
-    if let Some(src) = sc.tree.files.get("src.wac") {
+    if let Some(src) = sc.tree.files.get(&src) {
         for l in String::from_utf8_lossy(src).lines().take(40) {
             t.event(format!("  | {l}"));
         }
@@ -935,7 +975,7 @@ fn run_inner(run: &mut Run) {
     let tag = "disk".to_string();
     finish(
         run,
-        run_process(ProcSpec::new(0x14), move || pipeline_disk(root2, deps_dir, overrides, tag)),
+        run_process(ProcSpec::new(0x14), move || pipeline_disk(root2, src, deps_dir, overrides, tag)),
     );
     let _ = std::fs::remove_dir_all(&root);
 }
